@@ -53,6 +53,8 @@ type c04Result struct {
 	trace      []string
 	probes     map[string]int
 	digest     map[sim.ID]string // digest of every party's session-A output (compared with the unaltered run)
+	joint      string            // the joint value of session A that is meant to be random (sid / public key / signature nonce)
+	log        []wireMsg
 }
 
 // c04Scenario is one protocol exercised by the wire adversary.
@@ -125,7 +127,7 @@ func scenarioSession() *c04Scenario {
 		pr := newC04Run(rc, adv)
 		for _, ns := range []string{"A", "B"} {
 			for _, id := range c04IDs {
-				pr.start(sessionScript(fmt.Sprintf("%s@%d", ns, id), id, c04IDs, ns+"-sess", sim.NewRand(rc.Seed.Sub(fmt.Sprintf("rand/%d/%s", id, ns)))))
+				pr.start(sessionScript(fmt.Sprintf("%s@%d", ns, id), id, c04IDs, ns+"-sess", partyRand(rc, id, ns+"/sess")))
 			}
 		}
 		if err := pr.run(); err != nil {
@@ -146,6 +148,7 @@ func scenarioSession() *c04Scenario {
 					}
 				}
 				res.digest[id] = d
+				res.joint = fmt.Sprintf("%x", c.SessionID())
 			}
 		}
 		// safety: honest parties that complete agree with each other (C10 clause for free leaves)
@@ -204,8 +207,7 @@ func scenarioDKG(proto string) *c04Scenario {
 		pr := newC04Run(rc, adv)
 		for _, ns := range []string{"A", "B"} {
 			for _, id := range c04IDs {
-				rnd := sim.NewRand(rc.Seed.Sub(fmt.Sprintf("rand/%d/%s", id, ns)))
-				sc := dkgScript(fmt.Sprintf("%s@%d", ns, id), id, spec, kit, proto, fiatshamir.Name, ns, rnd)
+				sc := dkgScript(fmt.Sprintf("%s@%d", ns, id), id, spec, kit, proto, fiatshamir.Name, ns, partyRand(rc, id, ns+"/sess"), partyRand(rc, id, ns+"/proto"))
 				pr.start(sc)
 			}
 		}
@@ -222,6 +224,7 @@ func scenarioDKG(proto string) *c04Scenario {
 				if b, err := serde.MarshalCBOR(e.out.(*mpc.BaseShard[*k256Point, *k256Scalar])); err == nil {
 					res.digest[id] = fmt.Sprintf("%x", sha256.Sum256(b))
 				}
+				res.joint = hex.EncodeToString(e.out.(*mpc.BaseShard[*k256Point, *k256Scalar]).PublicKeyValue().Bytes())
 			}
 			if id == adv.corrupt || !e.done || e.err != nil || e.panic != nil {
 				continue
@@ -272,8 +275,8 @@ func scenarioSign[G algebra.PrimeGroupElement[G, S], S algebra.PrimeFieldElement
 			for _, id := range quorum {
 				id := id
 				pr.start(script{name: fmt.Sprintf("%s@%d", ns, id), party: id, fn: func(ctx context.Context, rt *network.Router) (any, error) {
-					rnd := sim.NewRand(rc.Seed.Sub(fmt.Sprintf("rand/%d/%s", id, ns)))
-					sr, err := session.NewSessionRunner(id, quorumOf(quorum), rnd)
+					srnd, rnd := partyRand(rc, id, ns+"/sess"), partyRand(rc, id, ns+"/proto")
+					sr, err := session.NewSessionRunner(id, quorumOf(quorum), srnd)
 					if err != nil {
 						return nil, err
 					}
@@ -339,6 +342,7 @@ func scenarioSign[G algebra.PrimeGroupElement[G, S], S algebra.PrimeFieldElement
 			if e := res.ends[id]; e.done && e.err == nil && e.panic == nil {
 				if id == agg {
 					res.digest[id] = "sig:" + hex.EncodeToString(fl.nonce(e.out))
+					res.joint = hex.EncodeToString(fl.nonce(e.out))
 				} else if b, err := fl.encPartial(e.out); err == nil {
 					res.digest[id] = fmt.Sprintf("%x", sha256.Sum256(b))
 				}
